@@ -10,24 +10,34 @@ import (
 	"github.com/panjf2000/gnet/v2/internal/verifmc/sched"
 )
 
+//go:norace
 func pt(kind string, p unsafe.Pointer) { sched.Point(kind, int64(uintptr(p))) }
 
+//go:norace
 func AddInt32(addr *int32, delta int32) int32 {
 	pt("atomic.Add", unsafe.Pointer(addr))
 	return atomic.AddInt32(addr, delta)
 }
+
+//go:norace
 func LoadInt32(addr *int32) int32 {
 	pt("atomic.Load", unsafe.Pointer(addr))
 	return atomic.LoadInt32(addr)
 }
+
+//go:norace
 func StoreInt32(addr *int32, val int32) {
 	pt("atomic.Store", unsafe.Pointer(addr))
 	atomic.StoreInt32(addr, val)
 }
+
+//go:norace
 func SwapInt32(addr *int32, new int32) int32 {
 	pt("atomic.Swap", unsafe.Pointer(addr))
 	return atomic.SwapInt32(addr, new)
 }
+
+//go:norace
 func CompareAndSwapInt32(addr *int32, old, new int32) bool {
 	pt("atomic.CAS", unsafe.Pointer(addr))
 	return atomic.CompareAndSwapInt32(addr, old, new)
@@ -36,31 +46,49 @@ func CompareAndSwapInt32(addr *int32, old, new int32) bool {
 // Int32 mirrors atomic.Int32.
 type Int32 struct{ v atomic.Int32 }
 
-func (x *Int32) Load() int32           { pt("atomic.Load", unsafe.Pointer(x)); return x.v.Load() }
-func (x *Int32) Store(val int32)       { pt("atomic.Store", unsafe.Pointer(x)); x.v.Store(val) }
-func (x *Int32) Swap(new int32) int32  { pt("atomic.Swap", unsafe.Pointer(x)); return x.v.Swap(new) }
+//go:norace
+func (x *Int32) Load() int32 { pt("atomic.Load", unsafe.Pointer(x)); return x.v.Load() }
+
+//go:norace
+func (x *Int32) Store(val int32) { pt("atomic.Store", unsafe.Pointer(x)); x.v.Store(val) }
+
+//go:norace
+func (x *Int32) Swap(new int32) int32 { pt("atomic.Swap", unsafe.Pointer(x)); return x.v.Swap(new) }
+
+//go:norace
 func (x *Int32) Add(delta int32) int32 { pt("atomic.Add", unsafe.Pointer(x)); return x.v.Add(delta) }
+
+//go:norace
 func (x *Int32) CompareAndSwap(old, new int32) bool {
 	pt("atomic.CAS", unsafe.Pointer(x))
 	return x.v.CompareAndSwap(old, new)
 }
 
+//go:norace
 func AddInt64(addr *int64, delta int64) int64 {
 	pt("atomic.Add", unsafe.Pointer(addr))
 	return atomic.AddInt64(addr, delta)
 }
+
+//go:norace
 func LoadInt64(addr *int64) int64 {
 	pt("atomic.Load", unsafe.Pointer(addr))
 	return atomic.LoadInt64(addr)
 }
+
+//go:norace
 func StoreInt64(addr *int64, val int64) {
 	pt("atomic.Store", unsafe.Pointer(addr))
 	atomic.StoreInt64(addr, val)
 }
+
+//go:norace
 func SwapInt64(addr *int64, new int64) int64 {
 	pt("atomic.Swap", unsafe.Pointer(addr))
 	return atomic.SwapInt64(addr, new)
 }
+
+//go:norace
 func CompareAndSwapInt64(addr *int64, old, new int64) bool {
 	pt("atomic.CAS", unsafe.Pointer(addr))
 	return atomic.CompareAndSwapInt64(addr, old, new)
@@ -69,31 +97,49 @@ func CompareAndSwapInt64(addr *int64, old, new int64) bool {
 // Int64 mirrors atomic.Int64.
 type Int64 struct{ v atomic.Int64 }
 
-func (x *Int64) Load() int64           { pt("atomic.Load", unsafe.Pointer(x)); return x.v.Load() }
-func (x *Int64) Store(val int64)       { pt("atomic.Store", unsafe.Pointer(x)); x.v.Store(val) }
-func (x *Int64) Swap(new int64) int64  { pt("atomic.Swap", unsafe.Pointer(x)); return x.v.Swap(new) }
+//go:norace
+func (x *Int64) Load() int64 { pt("atomic.Load", unsafe.Pointer(x)); return x.v.Load() }
+
+//go:norace
+func (x *Int64) Store(val int64) { pt("atomic.Store", unsafe.Pointer(x)); x.v.Store(val) }
+
+//go:norace
+func (x *Int64) Swap(new int64) int64 { pt("atomic.Swap", unsafe.Pointer(x)); return x.v.Swap(new) }
+
+//go:norace
 func (x *Int64) Add(delta int64) int64 { pt("atomic.Add", unsafe.Pointer(x)); return x.v.Add(delta) }
+
+//go:norace
 func (x *Int64) CompareAndSwap(old, new int64) bool {
 	pt("atomic.CAS", unsafe.Pointer(x))
 	return x.v.CompareAndSwap(old, new)
 }
 
+//go:norace
 func AddUint32(addr *uint32, delta uint32) uint32 {
 	pt("atomic.Add", unsafe.Pointer(addr))
 	return atomic.AddUint32(addr, delta)
 }
+
+//go:norace
 func LoadUint32(addr *uint32) uint32 {
 	pt("atomic.Load", unsafe.Pointer(addr))
 	return atomic.LoadUint32(addr)
 }
+
+//go:norace
 func StoreUint32(addr *uint32, val uint32) {
 	pt("atomic.Store", unsafe.Pointer(addr))
 	atomic.StoreUint32(addr, val)
 }
+
+//go:norace
 func SwapUint32(addr *uint32, new uint32) uint32 {
 	pt("atomic.Swap", unsafe.Pointer(addr))
 	return atomic.SwapUint32(addr, new)
 }
+
+//go:norace
 func CompareAndSwapUint32(addr *uint32, old, new uint32) bool {
 	pt("atomic.CAS", unsafe.Pointer(addr))
 	return atomic.CompareAndSwapUint32(addr, old, new)
@@ -102,31 +148,49 @@ func CompareAndSwapUint32(addr *uint32, old, new uint32) bool {
 // Uint32 mirrors atomic.Uint32.
 type Uint32 struct{ v atomic.Uint32 }
 
-func (x *Uint32) Load() uint32            { pt("atomic.Load", unsafe.Pointer(x)); return x.v.Load() }
-func (x *Uint32) Store(val uint32)        { pt("atomic.Store", unsafe.Pointer(x)); x.v.Store(val) }
-func (x *Uint32) Swap(new uint32) uint32  { pt("atomic.Swap", unsafe.Pointer(x)); return x.v.Swap(new) }
+//go:norace
+func (x *Uint32) Load() uint32 { pt("atomic.Load", unsafe.Pointer(x)); return x.v.Load() }
+
+//go:norace
+func (x *Uint32) Store(val uint32) { pt("atomic.Store", unsafe.Pointer(x)); x.v.Store(val) }
+
+//go:norace
+func (x *Uint32) Swap(new uint32) uint32 { pt("atomic.Swap", unsafe.Pointer(x)); return x.v.Swap(new) }
+
+//go:norace
 func (x *Uint32) Add(delta uint32) uint32 { pt("atomic.Add", unsafe.Pointer(x)); return x.v.Add(delta) }
+
+//go:norace
 func (x *Uint32) CompareAndSwap(old, new uint32) bool {
 	pt("atomic.CAS", unsafe.Pointer(x))
 	return x.v.CompareAndSwap(old, new)
 }
 
+//go:norace
 func AddUint64(addr *uint64, delta uint64) uint64 {
 	pt("atomic.Add", unsafe.Pointer(addr))
 	return atomic.AddUint64(addr, delta)
 }
+
+//go:norace
 func LoadUint64(addr *uint64) uint64 {
 	pt("atomic.Load", unsafe.Pointer(addr))
 	return atomic.LoadUint64(addr)
 }
+
+//go:norace
 func StoreUint64(addr *uint64, val uint64) {
 	pt("atomic.Store", unsafe.Pointer(addr))
 	atomic.StoreUint64(addr, val)
 }
+
+//go:norace
 func SwapUint64(addr *uint64, new uint64) uint64 {
 	pt("atomic.Swap", unsafe.Pointer(addr))
 	return atomic.SwapUint64(addr, new)
 }
+
+//go:norace
 func CompareAndSwapUint64(addr *uint64, old, new uint64) bool {
 	pt("atomic.CAS", unsafe.Pointer(addr))
 	return atomic.CompareAndSwapUint64(addr, old, new)
@@ -135,31 +199,49 @@ func CompareAndSwapUint64(addr *uint64, old, new uint64) bool {
 // Uint64 mirrors atomic.Uint64.
 type Uint64 struct{ v atomic.Uint64 }
 
-func (x *Uint64) Load() uint64            { pt("atomic.Load", unsafe.Pointer(x)); return x.v.Load() }
-func (x *Uint64) Store(val uint64)        { pt("atomic.Store", unsafe.Pointer(x)); x.v.Store(val) }
-func (x *Uint64) Swap(new uint64) uint64  { pt("atomic.Swap", unsafe.Pointer(x)); return x.v.Swap(new) }
+//go:norace
+func (x *Uint64) Load() uint64 { pt("atomic.Load", unsafe.Pointer(x)); return x.v.Load() }
+
+//go:norace
+func (x *Uint64) Store(val uint64) { pt("atomic.Store", unsafe.Pointer(x)); x.v.Store(val) }
+
+//go:norace
+func (x *Uint64) Swap(new uint64) uint64 { pt("atomic.Swap", unsafe.Pointer(x)); return x.v.Swap(new) }
+
+//go:norace
 func (x *Uint64) Add(delta uint64) uint64 { pt("atomic.Add", unsafe.Pointer(x)); return x.v.Add(delta) }
+
+//go:norace
 func (x *Uint64) CompareAndSwap(old, new uint64) bool {
 	pt("atomic.CAS", unsafe.Pointer(x))
 	return x.v.CompareAndSwap(old, new)
 }
 
+//go:norace
 func AddUintptr(addr *uintptr, delta uintptr) uintptr {
 	pt("atomic.Add", unsafe.Pointer(addr))
 	return atomic.AddUintptr(addr, delta)
 }
+
+//go:norace
 func LoadUintptr(addr *uintptr) uintptr {
 	pt("atomic.Load", unsafe.Pointer(addr))
 	return atomic.LoadUintptr(addr)
 }
+
+//go:norace
 func StoreUintptr(addr *uintptr, val uintptr) {
 	pt("atomic.Store", unsafe.Pointer(addr))
 	atomic.StoreUintptr(addr, val)
 }
+
+//go:norace
 func SwapUintptr(addr *uintptr, new uintptr) uintptr {
 	pt("atomic.Swap", unsafe.Pointer(addr))
 	return atomic.SwapUintptr(addr, new)
 }
+
+//go:norace
 func CompareAndSwapUintptr(addr *uintptr, old, new uintptr) bool {
 	pt("atomic.CAS", unsafe.Pointer(addr))
 	return atomic.CompareAndSwapUintptr(addr, old, new)
@@ -168,33 +250,49 @@ func CompareAndSwapUintptr(addr *uintptr, old, new uintptr) bool {
 // Uintptr mirrors atomic.Uintptr.
 type Uintptr struct{ v atomic.Uintptr }
 
-func (x *Uintptr) Load() uintptr     { pt("atomic.Load", unsafe.Pointer(x)); return x.v.Load() }
+//go:norace
+func (x *Uintptr) Load() uintptr { pt("atomic.Load", unsafe.Pointer(x)); return x.v.Load() }
+
+//go:norace
 func (x *Uintptr) Store(val uintptr) { pt("atomic.Store", unsafe.Pointer(x)); x.v.Store(val) }
+
+//go:norace
 func (x *Uintptr) Swap(new uintptr) uintptr {
 	pt("atomic.Swap", unsafe.Pointer(x))
 	return x.v.Swap(new)
 }
+
+//go:norace
 func (x *Uintptr) Add(delta uintptr) uintptr {
 	pt("atomic.Add", unsafe.Pointer(x))
 	return x.v.Add(delta)
 }
+
+//go:norace
 func (x *Uintptr) CompareAndSwap(old, new uintptr) bool {
 	pt("atomic.CAS", unsafe.Pointer(x))
 	return x.v.CompareAndSwap(old, new)
 }
 
+//go:norace
 func LoadPointer(addr *unsafe.Pointer) unsafe.Pointer {
 	pt("atomic.Load", unsafe.Pointer(addr))
 	return atomic.LoadPointer(addr)
 }
+
+//go:norace
 func StorePointer(addr *unsafe.Pointer, val unsafe.Pointer) {
 	pt("atomic.Store", unsafe.Pointer(addr))
 	atomic.StorePointer(addr, val)
 }
+
+//go:norace
 func SwapPointer(addr *unsafe.Pointer, new unsafe.Pointer) unsafe.Pointer {
 	pt("atomic.Swap", unsafe.Pointer(addr))
 	return atomic.SwapPointer(addr, new)
 }
+
+//go:norace
 func CompareAndSwapPointer(addr *unsafe.Pointer, old, new unsafe.Pointer) bool {
 	pt("atomic.CAS", unsafe.Pointer(addr))
 	return atomic.CompareAndSwapPointer(addr, old, new)
@@ -203,12 +301,19 @@ func CompareAndSwapPointer(addr *unsafe.Pointer, old, new unsafe.Pointer) bool {
 // Bool mirrors atomic.Bool.
 type Bool struct{ v atomic.Bool }
 
-func (x *Bool) Load() bool     { pt("atomic.Load", unsafe.Pointer(x)); return x.v.Load() }
+//go:norace
+func (x *Bool) Load() bool { pt("atomic.Load", unsafe.Pointer(x)); return x.v.Load() }
+
+//go:norace
 func (x *Bool) Store(val bool) { pt("atomic.Store", unsafe.Pointer(x)); x.v.Store(val) }
+
+//go:norace
 func (x *Bool) Swap(new bool) bool {
 	pt("atomic.Swap", unsafe.Pointer(x))
 	return x.v.Swap(new)
 }
+
+//go:norace
 func (x *Bool) CompareAndSwap(old, new bool) bool {
 	pt("atomic.CAS", unsafe.Pointer(x))
 	return x.v.CompareAndSwap(old, new)
@@ -217,12 +322,19 @@ func (x *Bool) CompareAndSwap(old, new bool) bool {
 // Pointer mirrors atomic.Pointer[T].
 type Pointer[T any] struct{ v atomic.Pointer[T] }
 
-func (x *Pointer[T]) Load() *T     { pt("atomic.Load", unsafe.Pointer(x)); return x.v.Load() }
+//go:norace
+func (x *Pointer[T]) Load() *T { pt("atomic.Load", unsafe.Pointer(x)); return x.v.Load() }
+
+//go:norace
 func (x *Pointer[T]) Store(val *T) { pt("atomic.Store", unsafe.Pointer(x)); x.v.Store(val) }
+
+//go:norace
 func (x *Pointer[T]) Swap(new *T) *T {
 	pt("atomic.Swap", unsafe.Pointer(x))
 	return x.v.Swap(new)
 }
+
+//go:norace
 func (x *Pointer[T]) CompareAndSwap(old, new *T) bool {
 	pt("atomic.CAS", unsafe.Pointer(x))
 	return x.v.CompareAndSwap(old, new)
@@ -231,12 +343,19 @@ func (x *Pointer[T]) CompareAndSwap(old, new *T) bool {
 // Value mirrors atomic.Value.
 type Value struct{ v atomic.Value }
 
-func (x *Value) Load() any     { pt("atomic.Load", unsafe.Pointer(x)); return x.v.Load() }
+//go:norace
+func (x *Value) Load() any { pt("atomic.Load", unsafe.Pointer(x)); return x.v.Load() }
+
+//go:norace
 func (x *Value) Store(val any) { pt("atomic.Store", unsafe.Pointer(x)); x.v.Store(val) }
+
+//go:norace
 func (x *Value) Swap(new any) any {
 	pt("atomic.Swap", unsafe.Pointer(x))
 	return x.v.Swap(new)
 }
+
+//go:norace
 func (x *Value) CompareAndSwap(old, new any) bool {
 	pt("atomic.CAS", unsafe.Pointer(x))
 	return x.v.CompareAndSwap(old, new)
